@@ -568,8 +568,13 @@ class XsdElement(XsdComponent, ParticleMixin,
 
     def check_dynamic_context(self, elem: ElementType, validation: str,
                               context: ValidationContext) -> None:
+        # An XML source without a base URL (e.g. a string) takes the one of the main
+        # schema, as for the hints of the root, otherwise in sandbox mode the loaded
+        # schema should be confined to its own directory, that is not at all.
+        base_url = context.source.base_url or self.maps.validator.base_url
+
         for ns, url in iter_schema_location_hints(elem):
-            if self.maps.get_schema(ns, url, context.source.base_url) is not None:
+            if self.maps.get_schema(ns, url, base_url) is not None:
                 continue
 
             if ns in iter_schema_namespaces(context.source.root, elem):
@@ -580,10 +585,10 @@ class XsdElement(XsdComponent, ParticleMixin,
                 with self.maps.protect_status():
                     if ns in self.maps.namespaces:
                         schema = self.maps.namespaces[ns][0]
-                        schema.include_schema(url, context.source.base_url)
+                        schema.include_schema(url, base_url)
                     else:
                         schema = self.schema
-                        schema.import_schema(ns, url, context.source.base_url)
+                        schema.import_schema(ns, url, base_url)
                     schema.clear()
                     schema.build()
 
@@ -1461,18 +1466,20 @@ class Xsd11Element(XsdElement):
 
     def check_dynamic_context(self, elem: ElementType, validation: str,
                               context: ValidationContext) -> None:
+        base_url = context.source.base_url or self.maps.validator.base_url
+
         for ns, url in iter_schema_location_hints(elem):
-            if self.maps.get_schema(ns, url, context.source.base_url) is not None:
+            if self.maps.get_schema(ns, url, base_url) is not None:
                 continue
 
             try:
                 with self.maps.protect_status():
                     if ns in self.maps.namespaces:
                         schema = self.maps.namespaces[ns][0]
-                        schema.include_schema(url, context.source.base_url)
+                        schema.include_schema(url, base_url)
                     else:
                         schema = self.schema
-                        schema.import_schema(ns, url, context.source.base_url)
+                        schema.import_schema(ns, url, base_url)
                     schema.clear()
                     schema.build()
 
